@@ -114,7 +114,11 @@ def rel3(camp, p):
 
 @composite
 def case(d):
-    p = family.member_of(d, prefer=("X01c", "X01", "K03", "E03"))
+    if d.bool(0.12):
+        # a file that opens with several comments, one of them too long: the header relation must still be a pure shift
+        p = family.member_of(d, violating=1.0, ftype="c", opts={"force": ("leading-comments",)}, only=("X01c",))
+    else:
+        p = family.member_of(d, prefer=("X01c", "X01", "K03", "E03"))
     return p, d
 
 
